@@ -1250,6 +1250,8 @@ def run_jobs(ctx, jobs):
     import shapely  # noqa
     import scenic.formats.opendrive.xodr_parser  # noqa
     procs = min(B(ctx, 5, 10), max(2, (os.cpu_count() or 4) - 2), max(1, len(jobs)))
+    if os.environ.get("VERIF_C20_PROCS"):  # development runs on the shared machine
+        procs = max(1, min(procs, int(os.environ["VERIF_C20_PROCS"])))
     mpctx = mp.get_context("fork")
     results = []
     with mpctx.Pool(procs) as pool:
